@@ -200,6 +200,82 @@ def _screen_invalid(base, local, remote, merged, decisions, exc):
 SCREENS = {"raises": _screen_raises, "invalid": _screen_invalid}
 
 
+def _relabel(decisions, side, only_conflicts=False):
+    import copy
+    out = []
+    for d in decisions:
+        d = copy.deepcopy(d)
+        if not only_conflicts or d.conflict:
+            d["action"] = side
+            d["conflict"] = False
+            for k in ("local_diff", "remote_diff"):
+                if d.get(k) is None:
+                    d[k] = []
+        out.append(d)
+    return out
+
+
+def _whole_lossless(b, l, r):
+    """C09 with nbdime's own applier as a stand-in for the specification's: the open (mergetool) decisions applied
+    give merged; relabelled to one side they give that side."""
+    from nbdime.merging.notebooks import decide_notebook_merge
+    from nbdime.merging.decisions import apply_decisions
+    try:
+        D = decide_notebook_merge(b, l, r, strategy_args("mergetool", None, None, True))
+        if apply_decisions(b, _relabel(D, "local")) != l:
+            return "all-local"
+        if apply_decisions(b, _relabel(D, "remote")) != r:
+            return "all-remote"
+    except Exception as e:  # noqa
+        return "raised:%s" % type(e).__name__
+    return None
+
+
+def _whole_useside(b, l, r):
+    """C10: use-X = the open merge with every conflict resolved to X (nbdime's applier as stand-in)"""
+    from nbdime.merging.notebooks import decide_notebook_merge, merge_notebooks
+    from nbdime.merging.decisions import apply_decisions
+    try:
+        D = decide_notebook_merge(b, l, r, strategy_args("mergetool", None, None, True))
+        for side in ("local", "remote", "base"):
+            m, dd = merge_notebooks(b, l, r, strategy_args("use-" + side, None, None, True))
+            if any(d.conflict for d in dd):
+                return "conflict-left:" + side
+            if apply_decisions(b, _relabel(D, side, only_conflicts=True)) != m:
+                return "differs:" + side
+    except Exception as e:  # noqa
+        return "raised:%s" % type(e).__name__
+    return None
+
+
+def _src_lines(nb):
+    out = set()
+    for c in nb.get("cells", []):
+        for ln in c.get("source", "").splitlines(True):
+            if ln.strip():
+                out.add(ln.rstrip("\r\n\x0b\x0c\x1c\x1d\x1e\x85\u2028\u2029"))
+    return out
+
+
+def _whole_lines(b, l, r):
+    """C07: every line a side added survives, nothing appears from nowhere (default strategy)"""
+    from nbdime.merging.notebooks import merge_notebooks
+    try:
+        m, dd = merge_notebooks(b, l, r, strategy_args("inline", None, None, True))
+    except Exception as e:  # noqa
+        return "raised:%s" % type(e).__name__
+    bl, ll, rl, ml = _src_lines(b), _src_lines(l), _src_lines(r), _src_lines(m)
+    if (ll | rl) - bl - ml:
+        return "dropped"
+    alien = [x for x in ml - bl - ll - rl if not x.startswith(("<<<<<<<", "=======", ">>>>>>>", "|||||||", "<span"))]
+    if alien:
+        return "alien"
+    return None
+
+
+WHOLE_SCREENS = {"lossless": _whole_lossless, "useside": _whole_useside, "lines": _whole_lines}
+
+
 def _sweep_worker(job):
     t, screen = job
     from . import concretize
@@ -209,6 +285,8 @@ def _sweep_worker(job):
         b, l, r = (concretize.concrete(t[k]) for k in ("base", "local", "remote"))
     except Exception:
         return None
+    if screen in WHOLE_SCREENS:
+        return WHOLE_SCREENS[screen](b, l, r)
     for st in SWEEP_STRATEGIES:
         merged = decisions = exc = None
         try:
